@@ -116,6 +116,54 @@ def iteration_bounds(n: int, i: int) -> bool:
     return (not accepted) or sv.iteration == v
 
 
+OTHER_TYPES = [True, False, 1.0, 7.5, None, [1], {"n": 1}, b"7", (3,)]
+
+
+@obligation(tier="quick", timeout=60,
+            bounds="iteration of a type that is neither int nor str (bool, float, null, list, object, bytes, tuple: 9 values, symbolic selection), "
+                   "given to the constructor and in an authorization file: refused - a JSON true must not become iteration 1 / the text "
+                   "'..._iteration_True'",
+            examples=[(0, dict(i=i, infile=False)) for i in range(9)] + [(0, dict(i=0, infile=True)), (0, dict(i=2, infile=True))])
+def iteration_types(i: int, infile: bool) -> bool:
+    """
+    pre: 0 <= i < len(OTHER_TYPES)
+    post: _
+    """
+    from harness.c16 import pick
+    v = pick(OTHER_TYPES, i)
+    if not infile:
+        try:
+            sa.SignerVersion(HASHES[0], v)
+        except ValueError:
+            return True
+        except Exception as e:
+            from harness.common import reraise_control_flow
+            reraise_control_flow(e)
+            return False
+        return False
+    if isinstance(v, (bytes, tuple)):
+        return True                      # (no JSON document holds these)
+    import json as real_json
+    fs = _Files()
+    fs.content["/x/auth.json"] = real_json.dumps({"version": 1, "signer": {"hash": HASHES[0], "iteration": v}, "signatures": []})
+    real_open = sa.__dict__.get("open")
+    sa.open = fs.open
+    try:
+        sa.SignerAuthorization.from_jsonfile("/x/auth.json")
+    except ValueError:
+        return True
+    except Exception as e:
+        from harness.common import reraise_control_flow
+        reraise_control_flow(e)
+        return False
+    finally:
+        if real_open is None:
+            del sa.open
+        else:
+            sa.open = real_open
+    return False
+
+
 SMAX = 5 if THOROUGH else 3
 WIN = 200 if THOROUGH else 20          # half-width of the decimal-string windows
 
@@ -332,6 +380,51 @@ def device_exchange(it: int, n: int, k: int) -> bool:
     if world.violations:
         return False
     return (raised is False and r is True) if should_succeed else raised
+
+
+@obligation(tier="quick", parts=2, timeout=200, part_names=["refused at the signer-version exchange", "refused at a signature exchange"],
+            bounds="the device answers one exchange of the authorization with an error status (symbolic 0x6A00..0x6AFF - the firmware's "
+                   "signer-authorization errors incl. 0x6A03 'invalid iteration' - and 0x6985 / 0x6B00..0x6B10); index of the refused "
+                   "signature symbolic: the command never reports the signer authorized",
+            examples=[(0, dict(sw=0x6A03, j=0)), (0, dict(sw=0x6A01, j=0)), (1, dict(sw=0x6A04, j=1)), (1, dict(sw=0x6985, j=0))])
+def device_refusal(sw: int, j: int) -> bool:
+    """
+    pre: (0x6A00 <= sw <= 0x6AFF) or sw == 0x6985 or (0x6B00 <= sw <= 0x6B10)
+    pre: 0 <= j <= 2
+    post: _
+    """
+    from sim.base import raise_fault, FAULT_SW, blist
+    at_version = part() == 0
+    sigs = ["30060201%02x020101" % (i + 1) for i in range(3)]
+    d = SimDevice()
+    d.mode = 2
+    d.auth_threshold = 3
+    world = World(d)
+    world.install(bytes_model=True)
+    seen = {"sigs": 0}
+
+    def hook(k, apdu):
+        a = blist(apdu)
+        if a[1] != 0x51:
+            return
+        if a[2] == 0x01 and at_version:
+            raise_fault(FAULT_SW, sw)
+        if a[2] == 0x02:
+            if not at_version and seen["sigs"] == j:
+                raise_fault(FAULT_SW, sw)
+            seen["sigs"] += 1
+    world.fault_hook = hook
+    dongle = passthrough(h.HSM2Dongle)(False)
+    quiet(dongle)
+    dongle.connect()
+    try:
+        r = dongle.authorize_signer(_Auth(HASHES[0], 7, sigs))
+    except h.HSM2DongleBaseError:
+        return True                       # the command fails: fine
+    except Exception as e:
+        reraise_control_flow(e)
+        return False
+    return r is not True                  # never "authorized" when the device refused
 
 
 @obligation(tier="quick", timeout=60, bounds="concrete smoke test of the crypto wiring: digest = Keccak-256 of the EIP-191 message",
